@@ -82,7 +82,7 @@ __all__ = ["Delta"]
 }
 
 
-def layout(root, pkg, levels):
+def layout(root, pkg, levels, deep="deep"):
     p = os.path.join(root, "src", pkg)
     os.makedirs(p)
     inits = {1: 'from {0}.a import Alpha, helper\n\n__all__ = ["Alpha", "helper"]\n'}
@@ -98,10 +98,10 @@ def layout(root, pkg, levels):
         with open(os.path.join(s, "g.py"), "w") as f:
             f.write(MODSRC["g"])
     if levels >= 3:
-        d = os.path.join(p, "sub", "deep")
+        d = os.path.join(p, "sub", deep)
         os.makedirs(d)
         with open(os.path.join(d, "__init__.py"), "w") as f:
-            f.write('"""deep"""\n\nfrom {0}.sub.deep.d import Delta\n\n__all__ = ["Delta"]\n'.format(pkg))
+            f.write('"""deep"""\n\nfrom {0}.sub.{1}.d import Delta\n\n__all__ = ["Delta"]\n'.format(pkg, deep))
         with open(os.path.join(d, "d.py"), "w") as f:
             f.write(MODSRC["d"])
 
@@ -130,7 +130,8 @@ def run_case(args):
     o = case["o"]
     work = tempfile.mkdtemp(prefix="c20-", dir=workroot)
     pkg = "vpkg{}".format(idx)
-    layout(work, pkg, o["levels"])
+    deep = pkg + "_ext" if o.get("deepname") == "rootish" else "deep"
+    layout(work, pkg, o["levels"], deep)
     out = os.path.join(work, "out")
     if o["out_exists"]:
         os.makedirs(out)
@@ -146,7 +147,7 @@ def run_case(args):
     if o["dry"]:
         argv.append("--dry-run")
     for m in o["black"]:
-        argv += ["--blacklist", DOTTED[m].format(pkg)]
+        argv += ["--blacklist", "{}.{}".format(pkg, deep) if m == "deep" else DOTTED[m].format(pkg)]
     for m in o["white"]:
         argv += ["--whitelist", DOTTED[m].format(pkg)]
     sys.path.insert(0, os.path.join(work, "src"))
@@ -283,7 +284,14 @@ def _check(run, replay, work):
         rnd = random.Random(run.seed)
         dry = [c for c in cases if c["o"]["dry"]]
         wet = [c for c in cases if not c["o"]["dry"]]
-        cases = rnd.sample(dry, min(140, len(dry))) + rnd.sample(wet, min(140, len(wet)))
+        # strata that a uniform sample would mostly miss: filters on a dotted exposed package, histories, prefix-sharing names
+        def rare(c):
+            o = c["o"]
+            return o.get("expose") == "sub" and (o["black"] or o["white"]) or o.get("prior") or o.get("deepname") == "rootish"
+        special = [c for c in cases if rare(c)]
+        rest_dry = [c for c in dry if not rare(c)]
+        rest_wet = [c for c in wet if not rare(c)]
+        cases = rnd.sample(special, min(300, len(special))) + rnd.sample(rest_dry, min(250, len(rest_dry))) + rnd.sample(rest_wet, min(250, len(rest_wet)))
     else:
         run.exhaustive = True
     items = [(c, work, k) for k, c in enumerate(cases)]
